@@ -85,7 +85,8 @@ def run(ctx: Ctx):
     nbk.check_candidates(ctx, {"threshold": "R-C09-2", "matrix-cover": "R-C09-2", "c2n": "R-C09-2", "cost-domain": "R-C09-4", "matrix-domain": "R-C09-4"})
     w = ctx.fn("Continuum.get_first_window", "R-C09-2")
     tests = [i for i in ast.walk(w.node) if isinstance(i, ast.If) and "delta_empty" in norm(i.test)]
-    okw = len(tests) == 1 and isinstance(tests[0].test, ast.Compare) and norm(tests[0].test.left).endswith(".d(rightmost_unit, unit)") and \
+    okw = len(tests) == 1 and isinstance(tests[0].test, ast.Compare) and isinstance(tests[0].test.left, ast.Call) and \
+        norm(tests[0].test.left.func) == f"{w.params[1]}.d" and len(tests[0].test.left.args) == 2 and isinstance(tests[0].test.ops[0], (ast.Gt, ast.GtE)) and \
         norm(tests[0].test.comparators[0]) in (f"{w.params[1]}.delta_empty * {w.self_name}.num_annotators", f"{w.self_name}.num_annotators * {w.params[1]}.delta_empty")
     ctx.check(okw, "R-C09-2", w, tests[0] if tests else None, "fast-window reach test compares a dissimilarity (degree 1) with n * delta_empty (degree 1): scale-free",
               bad_detail="the reach test of get_first_window does not scale with delta_empty", key="reach-test")
